@@ -60,6 +60,32 @@ Proof.
   - inversion E; subst. apply settle_addrs. exact H.
 Qed.
 
+(* runtime.Goexit removes recover points from the frames below (exit_stack): nothing is added *)
+Lemma notry_incl : forall K f, In f (notry K) -> In f K.
+Proof.
+  induction K as [|f0 K IH]; intros f H; cbn [notry] in H; [exact H|].
+  destruct f0; try (destruct H as [H|H]; [left; exact H|right; apply IH; exact H]).
+  right. apply IH. exact H.
+Qed.
+
+Lemma exit_stack_incl p K f : In f (exit_stack p K) -> In f K.
+Proof. unfold exit_stack. destruct (is_goexit p); [apply notry_incl|auto]. Qed.
+
+Lemma exit_stack_addrs p K a : In a (stack_addrs (exit_stack p K)) -> In a (stack_addrs K).
+Proof.
+  unfold stack_addrs. rewrite !in_flat_map. intros (f & Hf & Ha). exists f. split; [eapply exit_stack_incl; eauto|exact Ha].
+Qed.
+
+Lemma resume_exit_addrs b X env ps p K pn K' a :
+  resume b (X ++ KSeq env ps :: exit_stack p K) = (pn, K') -> In a (stack_addrs K') -> In a (stack_addrs (X ++ KSeq env ps :: K)).
+Proof.
+  intros E Ha. apply (resume_addrs _ _ _ _ _ E) in Ha. rewrite stack_addrs_app in *.
+  apply in_app_or in Ha. apply in_or_app. destruct Ha as [Ha|Ha]; [left; exact Ha|right].
+  change (stack_addrs (KSeq env ps :: exit_stack p K)) with (env ++ stack_addrs (exit_stack p K)) in Ha.
+  change (stack_addrs (KSeq env ps :: K)) with (env ++ stack_addrs K).
+  apply in_app_or in Ha. apply in_or_app. destruct Ha as [Ha|Ha]; [left; exact Ha|right; eapply exit_stack_addrs; eauto].
+Qed.
+
 Ltac in_cases H :=
   repeat match type of H with
          | In _ (_ ++ _) => apply in_app_or in H; destruct H as [H|H]
@@ -215,7 +241,7 @@ Qed.
 Lemma exec_stmt_own g env p s : g < length (tls s) -> res_own g env s (exec_stmt g env p s).
 Proof.
   intros Hg.
-  destruct p as [lbl try body|lbl ce body|lbl le body|lbl body|lbl body|body|body|k v|k|l| |lbl le|n v|lbl| ];
+  destruct p as [lbl try body|lbl ce body|lbl le body|lbl body|lbl body|body|body|k v|k|l| |lbl le|n v|lbl| | ];
     cbn [exec_stmt].
   - (* PDo *)
     unfold alloc_ctx at 1. cbv beta iota zeta. cbn [with_cheap tls cheap lheap].
@@ -308,6 +334,7 @@ Proof.
   - (* PObserve *)
     eapply res_own_plain; [apply heap_frame_refl|reflexivity|reflexivity|]. cbn [r_push]. intros b [].
   - (* PPanic *) apply res_own_raise; apply heap_frame_refl.
+  - (* PGoexit *) apply res_own_raise; apply heap_frame_refl.
 Qed.
 
 Lemma run_dact_own g x s :
@@ -375,13 +402,13 @@ Proof.
         eapply resume_addrs; eauto.
       * pose proof (exec_stmt_own g env p s Hg) as R. set (r := exec_stmt g env p s) in *.
         destruct R as [Ra Rs Rh Rl].
-        destruct (resume (r_panic r) (r_push r ++ KSeq env ps :: K)) as [pn K'] eqn:ER. cbn [g_stack].
+        destruct (resume (r_panic r) (r_push r ++ KSeq env ps :: exit_stack p K)) as [pn K'] eqn:ER. cbn [g_stack].
         change (stack_addrs (KSeq env (p :: ps) :: K)) with (env ++ stack_addrs K).
         splits; auto.
         -- intros a Ha. unfold owned_by in Ha. apply in_app_or in Ha.
            assert (Ha' : In a (owned_by (tl_find g (tls (r_sh r))) (r_push r)) \/ In a env \/ In a (stack_addrs K)).
            { destruct Ha as [Ha|Ha]; [left; unfold owned_by; apply in_or_app; left; exact Ha|].
-             apply (resume_addrs _ _ _ _ _ ER) in Ha. rewrite stack_addrs_app in Ha.
+             apply (resume_exit_addrs _ _ _ _ _ _ _ _ _ ER) in Ha. rewrite stack_addrs_app in Ha.
              change (stack_addrs (KSeq env ps :: K)) with (env ++ stack_addrs K) in Ha.
              in_cases Ha; auto. left. unfold owned_by. apply in_or_app. right. exact Ha. }
            destruct Ha' as [Ha'|[Ha'|Ha']].
@@ -687,6 +714,14 @@ Proof.
   - inversion E; subst. apply settle_incl. exact H.
 Qed.
 
+Lemma resume_exit_incl b X env ps p K pn K' f :
+  resume b (X ++ KSeq env ps :: exit_stack p K) = (pn, K') -> In f K' -> In f (X ++ KSeq env ps :: K).
+Proof.
+  intros E Hf. apply (resume_incl _ _ _ _ _ E) in Hf.
+  apply in_app_or in Hf. apply in_or_app. destruct Hf as [Hf|Hf]; [left; exact Hf|right].
+  destruct Hf as [Hf|Hf]; [left; exact Hf|right; eapply exit_stack_incl; eauto].
+Qed.
+
 (* updates that keep the loaders in order *)
 Lemma ld_ok_put a c s : ld_ok s -> c_loader c < length (lheap s) -> ld_ok (put_ctx a c s).
 Proof.
@@ -854,7 +889,7 @@ Proof. intros H. rewrite nth_error_app1; [exact H|]. eapply nth_error_lt; eauto.
 Lemma exec_stmt_ld g env p s : ld_ok s -> res_ld g env s (exec_stmt g env p s).
 Proof.
   intros Hs.
-  destruct p as [lbl try body|lbl ce body|lbl le body|lbl body|lbl body|body|body|k v|k|l| |lbl le|n v|lbl| ];
+  destruct p as [lbl try body|lbl ce body|lbl le body|lbl body|lbl body|body|body|k v|k|l| |lbl le|n v|lbl| | ];
     cbn [exec_stmt].
   - (* PDo *)
     set (root := {| c_label := unknown_label; c_loader := 0; c_stack := []; c_vars := [] |}).
@@ -1006,6 +1041,7 @@ Proof.
   - (* PObserve *)
     eapply res_ld_plain; [exact Hs|apply lh_ext_refl|reflexivity|reflexivity|apply frames_ld_nil|auto].
   - (* PPanic *) apply res_ld_raise; auto using lh_ext_refl.
+  - (* PGoexit *) apply res_ld_raise; auto using lh_ext_refl.
 Qed.
 
 (* ---- one step, all schedules ------------------------------------------------------------------------ *)
@@ -1030,9 +1066,9 @@ Proof.
         eapply frames_ld_incl; [|exact Hf]. intros f Hin. right. eapply resume_incl; eauto.
       * pose proof (exec_stmt_ld g env p s Hs) as R. set (r := exec_stmt g env p s) in *.
         destruct R as [Rok Rext Rpush Rspawn Rents].
-        destruct (resume (r_panic r) (r_push r ++ KSeq env ps :: K)) as [pn K'] eqn:ER. cbn [g_stack].
+        destruct (resume (r_panic r) (r_push r ++ KSeq env ps :: exit_stack p K)) as [pn K'] eqn:ER. cbn [g_stack].
         splits; auto.
-        -- eapply frames_ld_incl; [intros f Hin; eapply resume_incl; eauto|].
+        -- eapply frames_ld_incl; [intros f Hin; eapply resume_exit_incl; eauto|].
            apply frames_ld_app; [exact Rpush|].
            eapply frames_ld_mono; [apply Rext|].
            intros xs a l [H|H] Hx; [discriminate|]. eapply Hf; [right; exact H|exact Hx].
@@ -1224,7 +1260,8 @@ Proof.
     - unfold with_lex. destruct env as [|a' rest]; [discriminate|]. inversion Hhd; subst a'. rewrite Ea.
       destruct (fork_ctx lbl ctx (lheap (sh c))) as [fc lh]. reflexivity.
     - rewrite Hget, Ea. destruct (fork_ctx lbl ctx (lheap (sh c))) as [fc lh]. reflexivity. }
-  rewrite Er in P. cbn [spawn r_sh r_push r_spawn r_events r_panic app] in P.
+  assert (Ex : exit_stack stmt K = K) by (destruct Hst as [[-> _]|[-> _]]; reflexivity).
+  rewrite Er, Ex in P. cbn [spawn r_sh r_push r_spawn r_events r_panic app] in P.
   destruct (resume false (KSeq env ps :: K)) as [pn K'].
   destruct P as (Pg & Pt & Pc & Pl). splits.
   - rewrite Pg. rewrite nth_error_app2 by (rewrite upd_length; lia). rewrite upd_length, Nat.sub_diag. reflexivity.
@@ -1422,7 +1459,7 @@ Lemma exec_stmt_blind g env p s x P :
 Proof.
   intros Hs Hx Hb Phd Ptl.
   assert (Hsb : ~ sees (lheap s) 0 x) by (apply sees_base; [apply (ldk_wf _ Hs)|lia]).
-  destruct p as [lbl try body|lbl ce body|lbl le body|lbl body|lbl body|body|body|k v|k|l| |lbl le|n v|lbl| ];
+  destruct p as [lbl try body|lbl ce body|lbl le body|lbl body|lbl body|body|body|k v|k|l| |lbl le|n v|lbl| | ];
     cbn [exec_stmt].
   - (* PDo *)
     set (root := {| c_label := unknown_label; c_loader := 0; c_stack := []; c_vars := [] |}).
@@ -1561,6 +1598,7 @@ Proof.
   - (* PObserve *)
     eapply res_blind_plain; [exact Hb|reflexivity|reflexivity|apply frames_blind_nil].
   - (* PPanic *) apply res_blind_raise; auto.
+  - (* PGoexit *) apply res_blind_raise; auto.
 Qed.
 
 Lemma step_g_blind g s st x P :
@@ -1587,9 +1625,9 @@ Proof.
         pose proof (exec_stmt_blind g env p s x P Hs Hx Hb Phd Ptl) as R.
         pose proof (exec_stmt_ld g env p s Hs) as L.
         set (r := exec_stmt g env p s) in *. destruct R as [R1 R2 R3]. destruct L as [L1 L2 L3 L4 L5].
-        destruct (resume (r_panic r) (r_push r ++ KSeq env ps :: K)) as [pn K'] eqn:ER. cbn [g_stack].
+        destruct (resume (r_panic r) (r_push r ++ KSeq env ps :: exit_stack p K)) as [pn K'] eqn:ER. cbn [g_stack].
         splits; auto.
-        -- eapply frames_blind_incl; [intros f Hin; eapply resume_incl; eauto|].
+        -- eapply frames_blind_incl; [intros f Hin; eapply resume_exit_incl; eauto|].
            apply frames_blind_app; [exact R2|].
            apply (frames_blind_ext x (lheap s) (lheap (r_sh r)) _ (ldk_wf _ Hs) L2).
            ++ intros xs a l [H|H] Hxx; [discriminate|]. eapply Hld; [right; exact H|exact Hxx].
@@ -1715,7 +1753,8 @@ Proof.
     - unfold with_lex. destruct env as [|a' rest]; [discriminate|]. inversion Hhd; subst a'. rewrite Ea.
       destruct (fork_ctx lbl ctx (lheap (sh c))) as [fc lh]. reflexivity.
     - rewrite Hget, Ea. destruct (fork_ctx lbl ctx (lheap (sh c))) as [fc lh]. reflexivity. }
-  rewrite Er in P. cbn [spawn r_sh r_push r_spawn r_events r_panic app] in P.
+  assert (Ex : exit_stack stmt K = K) by (destruct Hst as [[-> _]|[-> _]]; reflexivity).
+  rewrite Er, Ex in P. cbn [spawn r_sh r_push r_spawn r_events r_panic app] in P.
   destruct (resume false (KSeq env ps :: K)) as [pn K'] eqn:ER.
   destruct P as (Pg & Pt & Pc & Pl). splits.
   - rewrite Pt. reflexivity.
